@@ -74,5 +74,88 @@ pub fn retained(offset: u64, timestamp: u64, id: u128, payload: Vec<u8>) -> Arc<
 /// Minimal executor: every future in a harness is ready at each poll (the model file system and
 /// the model lock never return `Pending`), so a single-threaded poll loop is a legal schedule.
 pub fn block_on<F: core::future::Future>(f: F) -> F::Output {
-    kani::block_on(f)
+    iggy::verif_model::fs::block_on(f)
 }
+
+// ------------------------------------------------------------------------------------------------
+// Partition scenarios on the model file system
+// ------------------------------------------------------------------------------------------------
+use crate::streaming::batching::appendable_batch_info::AppendableBatchInfo;
+use crate::streaming::partitions::partition::Partition;
+use crate::streaming::persistence::persister::{FilePersister, PersisterKind};
+use crate::streaming::storage::SystemStorage;
+use iggy::messages::send_messages::Message;
+use iggy::utils::sizeable::Sizeable;
+use iggy::utils::timestamp::IggyTimestamp;
+use std::sync::atomic::{AtomicU32, AtomicU64};
+
+pub struct Counters {
+    pub msgs_stream: Arc<AtomicU64>,
+    pub msgs_topic: Arc<AtomicU64>,
+    pub size_stream: Arc<AtomicU64>,
+    pub size_topic: Arc<AtomicU64>,
+    pub segs_stream: Arc<AtomicU32>,
+}
+
+pub fn counters() -> Counters {
+    Counters {
+        msgs_stream: Arc::new(AtomicU64::new(0)),
+        msgs_topic: Arc::new(AtomicU64::new(0)),
+        size_stream: Arc::new(AtomicU64::new(0)),
+        size_topic: Arc::new(AtomicU64::new(0)),
+        segs_stream: Arc::new(AtomicU32::new(0)),
+    }
+}
+
+pub fn storage(cfg: &Arc<SystemConfig>) -> Arc<SystemStorage> {
+    Arc::new(SystemStorage::new(cfg.clone(), Arc::new(PersisterKind::File(FilePersister))))
+}
+
+/// A fresh partition 1 of topic 1 / stream 1 (what `Topic::add_partitions` builds), optionally
+/// persisted on the model FS (directories + first segment files, as `Partition::persist` does).
+pub fn new_partition(cfg: &Arc<SystemConfig>, st: &Arc<SystemStorage>, c: &Counters, with_segment: bool, persist: bool) -> Partition {
+    let mut p = block_on(Partition::create(
+        1, 1, 1, with_segment, cfg.clone(), st.clone(), cfg.segment.message_expiry,
+        c.msgs_stream.clone(), c.msgs_topic.clone(), c.size_stream.clone(), c.size_topic.clone(),
+        c.segs_stream.clone(), IggyTimestamp::zero(),
+    ));
+    if persist {
+        block_on(p.persist()).unwrap();
+    }
+    p
+}
+
+pub fn message(id: u128, payload: Vec<u8>) -> Message {
+    let len = payload.len() as u32;
+    Message { id, length: len, payload: static_bytes(payload), headers: None }
+}
+
+/// `typed_msg_vec!(v, m1, m2)`: a `Vec<Message>` whose buffer is a *typed* stack array instead of a heap byte array: CBMC keeps
+/// field-sensitive constants for typed objects, while structs holding pointers lose them when read
+/// back from `malloc`ed byte arrays (measured: a 1-message batch went from > 400 s to seconds).
+/// Capacity 0 makes `Vec`/`IntoIter` skip deallocation of the foreign buffer. The vector is only
+/// iterated and asked for `len()` by the code under test; it is never grown.
+// (the macro itself is defined in mod.rs so that it is in textual scope of every harness file)
+
+/// batch size exactly as `System::append_messages` computes it
+pub fn batch_info(msgs: &[Message]) -> AppendableBatchInfo {
+    let mut sz = IggyByteSize::default();
+    let mut i = 0;
+    while i < msgs.len() {
+        sz += msgs[i].get_size_bytes();
+        i += 1;
+    }
+    AppendableBatchInfo::new(sz, 1)
+}
+
+use crate::streaming::segments::Segment;
+
+/// A stand-alone open segment (stream 1 / topic 1 / partition 1) with its own counters.
+pub fn segment(start_offset: u64, cfg: Arc<SystemConfig>) -> Segment {
+    Segment::create(
+        1, 1, 1, start_offset, cfg, IggyExpiry::NeverExpire,
+        Arc::new(AtomicU64::new(0)), Arc::new(AtomicU64::new(0)), Arc::new(AtomicU64::new(0)),
+        Arc::new(AtomicU64::new(0)), Arc::new(AtomicU64::new(0)), Arc::new(AtomicU64::new(0)),
+    )
+}
+
